@@ -250,6 +250,19 @@ pub fn run(args: &[Val]) -> Val {
             let _ = peer.shutdown(std::net::Shutdown::Write);
             std::thread::sleep(Duration::from_millis(30));
         }
+        "reply_blocked" => {
+            // the peer sends requests and never reads: the daemon thread ends up blocked in the middle of writing a reply
+            let _ = peer.set_nonblocking(true);
+            let mut last = Instant::now();
+            let t0 = Instant::now();
+            while last.elapsed() < Duration::from_millis(250 + 50 * k as u64) && t0.elapsed() < Duration::from_secs(5) {
+                match peer.write(&get_features) {
+                    Ok(n) if n > 0 => last = Instant::now(),
+                    _ => std::thread::sleep(Duration::from_millis(5)),
+                }
+            }
+            let _ = peer.set_nonblocking(false);
+        }
         "invalid_request" => {
             // a header the server rejects: unknown request code / oversized body
             let bad = if k % 2 == 0 { hdr(0, 1, 0) } else { hdr(2, 1, 0x2000) };
